@@ -37,7 +37,7 @@ COMBOS = ['full', 'rho_only', 'rho_rho0', 'Tdown4']
 def cases(tier, sd):
     out = []
     mem = c04.members(tier, sd + 5)
-    nf = 1 if tier == "quick" else 3
+    nf = 2 if tier == "quick" else 10
     shapes = [(6, 5, 4), (4, 7, 5), (5, 4, 6)]
     for mi, m in enumerate(mem):
         for combo in COMBOS:
